@@ -7,4 +7,5 @@ mkdir -p build evidence
 cp /repo/go.sum harness/go.sum
 (cd harness && go build -tags verif -o ../build/vh ./cmd/vh)
 command -v tlc >/dev/null
+command -v apalache-mc >/dev/null   # C06: inductive invariant of the cache model
 echo "setup ok"
